@@ -251,6 +251,12 @@ fn cmd_gen(args: &[String]) {
             n_chain_sets += 1;
         }
     }
+    // systematic column defaults for every branch of the exporters' default handling
+    if arg(args, "--default-shapes", "1") == "1" {
+        for m in advgen::gen_default_sets() {
+            sets.push(("default-shapes".to_string(), m));
+        }
+    }
     // systematic name shapes for every sanitising function
     if arg(args, "--name-shapes", "1") == "1" {
         for m in advgen::gen_name_shape_sets() {
@@ -336,7 +342,27 @@ fn cmd_gen(args: &[String]) {
                 py_rep.insert(oname, same);
             }
             let invalid: Vec<String> = sea_j["o17"].as_array().map(|a| a.iter().filter_map(|x| x.as_str()).filter(|x| x.starts_with("invalid-")).map(|x| x.to_string()).collect()).unwrap_or_default();
-            xts.push(format!("(mkXT {} {} {} {} {})", sea_g, sa_variants.gs(), sm_variants.gs(), sa_class.gs(), invalid.gs()));
+            // per column, in order: does the SQLModel Field(...) line wrap the default in text("...")?
+            let sm_text: Vec<bool> = match &sm {
+                Ok(text) => {
+                    let ls: Vec<&str> = text.split('\n').collect();
+                    let mut at = 0usize;
+                    t.columns.iter().map(|c| {
+                        let prefix = format!("    {}: ", c.name);
+                        let mut hit = false;
+                        for k in at..ls.len() {
+                            if ls[k].starts_with(&prefix) && ls[k].contains(" = Field(") {
+                                hit = ls[k].contains("\"server_default\": text(");
+                                at = k + 1;
+                                break;
+                            }
+                        }
+                        hit
+                    }).collect()
+                }
+                Err(_) => vec![],
+            };
+            xts.push(format!("(mkXT {} {} {} {} {} {})", sea_g, sa_variants.gs(), sm_variants.gs(), sa_class.gs(), invalid.gs(), sm_text.gs()));
             // --- O-C18 in process: repeated renders and permuted slices
             let mut c18 = serde_json::Map::new();
             for (orm, oname) in ORMS {
@@ -473,7 +499,7 @@ fn cmd_gen(args: &[String]) {
         }
     }
     // FK-shaped sets (including cyclic ones) also go through every stage
-    for (tag, m) in sets.iter().filter(|(t, _)| !t.starts_with("corpus:") && t != "import-pairs" && t != "name-shapes").take(nevo + n_chain_sets) {
+    for (tag, m) in sets.iter().filter(|(t, _)| !t.starts_with("corpus:") && t != "import-pairs" && t != "name-shapes" && t != "default-shapes").take(nevo + n_chain_sets) {
         push16(&mut c16, &format!("models:{}", tag), m, &vec![], true);
     }
     std::fs::write(outdir.join("c16cases.jsonl"), c16).unwrap();
